@@ -1085,12 +1085,21 @@ func famAcc(iters int) {
 	}
 }
 
-// inputs with deliberately different shapes for the pool histories
+// inputs with deliberately different shapes for the pool histories: varint (1), bytes (2, 4), fixed32 (5) and fixed64 (6) fields, a repeated
+// nested message (3) that itself holds a nested message (7): two levels of pooled nested results
 func poolInputs(r *rand.Rand) (lazyproto.Def, [][]byte) {
-	def := lazyproto.NewDef(1, 2, 4)
+	def := lazyproto.NewDef(1, 2, 4, 5, 6)
 	nd := def.NestedTag(3, 1, 2)
-	_ = nd
+	nd.NestedTag(7, 1)
 	def.Tags(-3)
+	level2 := func() []byte {
+		var q []byte
+		for k, kk := 0, r.Intn(3); k < kk; k++ {
+			q = protowire.AppendTag(q, 1, protowire.VarintType)
+			q = protowire.AppendVarint(q, rnd64(r))
+		}
+		return q
+	}
 	mk := func(n1, n2, nNested int, big bool) []byte {
 		var b []byte
 		for i := 0; i < n1; i++ {
@@ -1105,6 +1114,15 @@ func poolInputs(r *rand.Rand) (lazyproto.Def, [][]byte) {
 			}
 			b = protowire.AppendBytes(b, s)
 		}
+		// fixed-width fields: as many as varint ones (none when there are none: shapes differ between inputs)
+		for i := 0; i < n1; i++ {
+			b = protowire.AppendTag(b, 5, protowire.Fixed32Type)
+			b = protowire.AppendFixed32(b, r.Uint32())
+			if i%2 == 0 {
+				b = protowire.AppendTag(b, 6, protowire.Fixed64Type)
+				b = protowire.AppendFixed64(b, r.Uint64())
+			}
+		}
 		for i := 0; i < nNested; i++ {
 			var p []byte
 			for k, kk := 0, r.Intn(3); k < kk; k++ {
@@ -1114,6 +1132,10 @@ func poolInputs(r *rand.Rand) (lazyproto.Def, [][]byte) {
 			if r.Intn(2) == 0 {
 				p = protowire.AppendTag(p, 2, protowire.BytesType)
 				p = protowire.AppendBytes(p, rndBytes(r))
+			}
+			if r.Intn(2) == 0 {
+				p = protowire.AppendTag(p, 7, protowire.BytesType)
+				p = protowire.AppendBytes(p, level2())
 			}
 			b = protowire.AppendTag(b, 3, protowire.BytesType)
 			b = protowire.AppendBytes(b, p)
@@ -1140,6 +1162,96 @@ func poolInputs(r *rand.Rand) (lazyproto.Def, [][]byte) {
 	return def, ins
 }
 
+// scripted pool histories, one per hazard a pooled result is exposed to, run on every option set before the random histories: what a
+// result holds when it comes back from the pool must be invisible, whatever happened to it in its previous life
+func (c *ctx) poolScenarios(dec *lazyproto.Decoder, def lazyproto.Def, o optSet) {
+	field := func(b []byte, n protowire.Number, payload []byte) []byte {
+		return protowire.AppendBytes(protowire.AppendTag(b, n, protowire.BytesType), payload)
+	}
+	var closed []*handle
+	closeH := func(h *handle) {
+		if h != nil && h.live {
+			c.close(h)
+			closed = append(closed, h)
+		}
+	}
+	probeNested := func(h *handle, all bool) {
+		for _, k := range c.nested(h, 3, all) {
+			for _, acc := range []string{"Int64", "UInt64s", "Bytes", "BytesS"} {
+				c.access(k, acc, []int{map[string]int{"Int64": 1, "UInt64s": 1, "Bytes": 2, "BytesS": 2}[acc]})
+			}
+			c.rangeOver(k)
+			for _, kk := range c.nested(k, 7, false) {
+				c.access(kk, "Int64", []int{1})
+				c.access(kk, "UInt64s", []int{1})
+				c.rangeOver(kk)
+			}
+		}
+		c.access(h, "Int64", []int{3, 1})
+		c.access(h, "Int64", []int{3, 7, 1})
+	}
+	// 1. a nested result recycled after a decode that failed half way: the nested payload is malformed AFTER a defined field was read
+	good := field([]byte{0x08, 0x01}, 3, []byte{0x08, 0x05, 0x12, 0x01, 'x'})
+	half := field([]byte{0x08, 0x02}, 3, []byte{0x08, 0x07, 0x10})                      // field 1 = 7, then a key without value
+	absent := field([]byte{0x08, 0x03}, 3, []byte{0x12, 0x02, 'y', 'z'})                // no field 1 in the nested message
+	for _, all := range []bool{false, true} {
+		for _, in := range [][]byte{good, half, absent, half, good, absent} {
+			h := c.decodeObj(dec, def, in, o.mode, o.name)
+			if h.live {
+				probeNested(h, all)
+			}
+			closeH(h)
+		}
+	}
+	// 2. two levels of nesting reached twice across a Close, a third result decoded while the second is open
+	lvl2 := func(v byte, s string) []byte {
+		inner := field([]byte{0x08, v}, 7, []byte{0x08, v + 1})
+		return field(field([]byte{0x08, v}, 2, []byte(s)), 3, inner)
+	}
+	hA := c.decodeObj(dec, def, lvl2(10, "AAAA"), o.mode, o.name)
+	probeNested(hA, false)
+	closeH(hA)
+	hB := c.decodeObj(dec, def, lvl2(20, "BBBB"), o.mode, o.name)
+	probeNested(hB, false)
+	hC := c.decodeObj(dec, def, lvl2(30, "CC"), o.mode, o.name)
+	probeNested(hC, false)
+	if hB.live {
+		probeNested(hB, false) // B again, now that C took results from the pools
+		c.access(hB, "Bytes", []int{2})
+	}
+	closeH(hC)
+	closeH(hB)
+	// 3. every slice accessor on a tag of its own wire type: result kept by the caller, Close, the next result of a different length
+	fixed := func(n int) []byte {
+		var b []byte
+		for i := 0; i < n; i++ {
+			b = protowire.AppendVarint(protowire.AppendTag(b, 1, protowire.VarintType), uint64(100*n+i))
+			b = field(b, 2, []byte{byte('a' + n), byte('a' + i)})
+			b = protowire.AppendFixed32(protowire.AppendTag(b, 5, protowire.Fixed32Type), uint32(1000*n+i))
+			b = protowire.AppendFixed64(protowire.AppendTag(b, 6, protowire.Fixed64Type), uint64(100000*n+i))
+		}
+		return b
+	}
+	accOf := map[int][]string{1: {"Bools", "UInt32s", "Int32s", "SInt32s", "UInt64s", "Int64s", "SInt64s"}, 2: {"Strings", "BytesS"},
+		5: {"Fixed32s", "Float32s", "UInt32s"}, 6: {"Fixed64s", "Float64s", "UInt64s"}}
+	for _, n := range []int{3, 1, 4, 2} {
+		h := c.decodeObj(dec, def, fixed(n), o.mode, o.name)
+		if h.live {
+			for _, t := range []int{1, 2, 5, 6} {
+				for _, acc := range accOf[t] {
+					c.access(h, acc, []int{t})
+				}
+			}
+		}
+		closeH(h)
+		if o.mode == 0 {
+			for _, x := range closed {
+				c.checkStable(x)
+			}
+		}
+	}
+}
+
 func famPool(iters int, histLen int) {
 	debug.SetGCPercent(-1) // keep sync.Pool contents: reuse is what the histories are about
 	c := &ctx{r: rng, sink: emit}
@@ -1156,6 +1268,10 @@ func famPool(iters int, histLen int) {
 		c.reset()
 		var live []*handle
 		var closed []*handle
+		if it < len(opts) {
+			// every option set once: the scripted histories, then the random ones on the same decoder (and the same pools)
+			c.poolScenarios(dec, def, o)
+		}
 		for step := 0; step < histLen; step++ {
 			switch r := rng.Intn(10); {
 			case r < 3 && len(live) < 3:
@@ -1169,12 +1285,16 @@ func famPool(iters int, histLen int) {
 					continue
 				}
 				acc := append(append([]string{}, scalarAccs...), sliceAccs...)[rng.Intn(26)]
-				t := []int{1, 2, 3, 4, -3, 7}[rng.Intn(6)]
+				t := []int{1, 2, 3, 4, -3, 7, 5, 6}[rng.Intn(8)]
 				// most of the time an accessor that fits the tag's wire type, so that values really flow
 				if rng.Intn(10) < 7 {
 					switch t {
 					case 1:
 						acc = []string{"UInt64s", "Int64s", "SInt64s", "Bools", "UInt64", "Int64", "Bool"}[rng.Intn(7)]
+					case 5:
+						acc = []string{"Fixed32s", "Float32s", "Fixed32", "Float32", "UInt32s"}[rng.Intn(5)]
+					case 6:
+						acc = []string{"Fixed64s", "Float64s", "Fixed64", "Float64", "UInt64s"}[rng.Intn(5)]
 					default:
 						acc = []string{"BytesS", "Strings", "Bytes", "String", "BytesS", "Strings"}[rng.Intn(6)]
 					}
@@ -1189,7 +1309,7 @@ func famPool(iters int, histLen int) {
 				if h == nil {
 					continue
 				}
-				kids := c.nested(h, []int{3, 3, 3, 1, -3}[rng.Intn(5)], rng.Intn(2) == 0)
+				kids := c.nested(h, []int{3, 3, 3, 1, -3, 7, 7}[rng.Intn(7)], rng.Intn(2) == 0)
 				for _, k := range kids {
 					if rng.Intn(2) == 0 {
 						c.access(k, scalarAccs[rng.Intn(len(scalarAccs))], []int{[]int{1, 2}[rng.Intn(2)]})
